@@ -3,7 +3,7 @@ import SaModel.Spec.Decode
 Slot-wise form of the oracle: `decodeAt a i` computes the logical value of slot `i` without materialising the
 other slots (`Spec.decode a i = slot (decodeAll a) i` builds all of them, which is the right *definition* but
 unusable on a view that declares 2^64 rows).  `lenOf a` is the closed form of `(decodeAll a).length`.
-`SaModel/Lemmas/DecodeAt.lean` proves `decodeAll a = (List.range (lenOf a)).map (decodeAt a)` and hence
+`SaModel/Lemmas/C02DecodeAt.lean` proves `decodeAll a = (List.range (lenOf a)).map (decodeAt a)` and hence
 `decodeAt a i = decode a i`; everything downstream (driver, C02, C12, C17) uses the slot-wise form.
 -/
 namespace SaModel.Spec
